@@ -1008,7 +1008,8 @@ class ValueList(Value):
         return -1
 
     def removeItem(self, item):
-        self.value.remove(item)
+        if item in self.value:
+            self.value.remove(item)
 
     def deleteAt(self, index):
         if index < 0:
@@ -1122,7 +1123,7 @@ class ValueMap(Value):
         return self.value[key]
 
     def removeItem(self, key):
-        del self.value[key]
+        self.value.pop(key, None)
 
     def getSortedKeys(self):
         return sorted(self.value.keys())
@@ -1284,7 +1285,7 @@ class ValueObject(Value):
         return self.value.get(key)
 
     def removeItem(self, key):
-        del self.value[key]
+        self.value.pop(key, None)
         return self.value
 
     def resolveItem(self, key):
@@ -1463,7 +1464,7 @@ class ValueSet(Value):
         return item in self.value
 
     def removeItem(self, item):
-        self.value.remove(item)
+        self.value.discard(item)
 
     def getSortedItems(self):
         return sorted(self.value)
